@@ -279,6 +279,13 @@ def _mutation_scan():
     return bad
 
 
+def _coq_chars(s):
+    for c in s:
+        if not (32 < ord(c) < 127) or c == '"':
+            raise G.GenError("unexpected format character %r" % c)
+    return "[" + "; ".join('"%s"%%char' % c for c in s) + "]"
+
+
 def _coq_str_list(xs):
     return "[" + "; ".join(G.coq_str(x) for x in xs) + "]"
 
@@ -316,7 +323,7 @@ def gen_txconsts():
     t += "(* struct format strings: captured live (recording parse_struct/stream_struct) and from the AST *)\n"
     for k in ["txin_stream_fmt", "txin_parse_fmt", "txout_stream_fmt", "txout_parse_fmt",
               "spendable_stream_fmt", "spendable_parse_fmt", "tx_word_fmt", "tx_count_fmt"]:
-        t += "Definition %s : string := %s.\n" % (k, G.coq_str(fm[k]))
+        t += "Definition %s : list ascii := %s.\n" % (k, _coq_chars(fm[k]))
     t += "Definition tx_marker_flag : list byte := %s.\n\n" % G.coq_bytes(fm["_marker_flag"])
     # ---- compact size probes
     probes = []
@@ -368,11 +375,11 @@ def gen_txconsts():
         for m in CHECK_METHODS + ["bad_solution_count"]:
             if getattr(cls, m) is not getattr(MT.Tx, m):
                 raise G.GenError("%s: overrides %s" % (name, m))
-        rows.append("(%s, %s, %s, %s)" % (G.coq_str(name), G.coq_Z(int(mm)), G.coq_Z(cls.MAX_TX_SIZE), G.coq_Z(coins)))
-    t += "(* per Tx class: (name, MAX_MONEY in satoshi, MAX_TX_SIZE, coins in the source literal) *)\n"
-    t += "Definition coin_table : list (string * Z * Z * Z) :=\n  [ " + ";\n    ".join(rows) + " ].\n"
+        rows.append("(%s, %s, %s, %s)" % (G.coq_bytes(name.encode()), G.coq_Z(int(mm)), G.coq_Z(cls.MAX_TX_SIZE), G.coq_Z(coins)))
+    t += "(* per Tx class: (name as ASCII bytes, MAX_MONEY in satoshi, MAX_TX_SIZE, coins in the source literal) *)\n"
+    t += "Definition coin_table : list (list byte * Z * Z * Z) :=\n  [ " + ";\n    ".join(rows) + " ].\n"
     for name, _, _ in classes:
-        t += "Definition coin_%s : string := %s.\n" % (name, G.coq_str(name))
+        t += "Definition coin_%s : list byte := %s.\n" % (name, G.coq_bytes(name.encode()))
     t += "Definition satoshi_per_coin : Z := %s.\n" % G.coq_Z(int(spc))
     t += "Definition max_block_size : Z := %s.\n\n" % G.coq_Z(lit_bs)
     # ---- coinbase constants
